@@ -4,6 +4,9 @@
 import json, subprocess
 
 BUILT = {
+ "C14": ("exploration", "before/after/restart/crash snapshots around failing statements (every cause, invalid row at every position), compared with the unchanged model; later valid statements checked",
+         "Held on the failing statements explored: every cause the property names, k = 1..n for n-row INSERTs, k-th overflowing row for UPDATEs, on states with splits and tombstones.",
+         "which error value is returned is not judged; ids may have gaps"),
  "C04": ("fault_enumeration", "crash image before every page write and the header write of every flush (timer-equivalent, CREATE TABLE, close, recovery's own), recovered in fresh processes, compared with the model; second-level crashes inside recovery's flush",
          "Every write of every flush of every generated history is a crash point; page orders are those the engine produced. One class of images (torn flush carrying a page allocation) is a recorded known finding and not judged.",
          "process-death crash model, no torn page writes; a table whose CREATE was in flight is not judged"),
